@@ -160,6 +160,14 @@ namespace Dune {
      */
     reference insert (const key_type & key, const_reference data)
     {
+      /* key already present: replace the data and mark it as most recent */
+      const map_iterator mit = _index.find(key);
+      if (mit != _index.end())
+      {
+        mit->second->second = data;
+        _data.splice(_data.begin(), _data, mit->second);
+        return mit->second->second;
+      }
       std::pair<key_type, value_type> x(key, data);
       /* insert item as mru */
       iterator it = _data.insert(_data.begin(), x);
